@@ -27,6 +27,7 @@ package cluster
 // or closed the connection, so at quiescence every delivered message has been recorded.
 import (
 	"bytes"
+	"database/sql"
 	"encoding/json"
 	"fmt"
 	"io"
@@ -58,6 +59,7 @@ const (
 	c29ModeSlow    = "slow"
 	c29ModeDrop    = "drop"
 	c29ModeHang    = "hang"
+	c29ModeHold    = "hold" // records, then answers 200 only when the monitor releases it
 	c29ModeRefuse  = "refuse" // row points at a closed port: nothing can be observed
 	c29FlushPath   = "/services/cluster/flush"
 	c29ClusterName = "c29"
@@ -81,6 +83,7 @@ type c29Peer struct {
 	port    int
 	mode    atomic.Value // string
 	release atomic.Value // chan struct{}
+	held    atomic.Int64 // requests currently parked in script hold
 	log     *c29Log
 }
 
@@ -156,6 +159,19 @@ func (p *c29Peer) ServeHTTP(w http.ResponseWriter, r *http.Request) {
 		case <-r.Context().Done():
 		case <-rel:
 		}
+	case c29ModeHold:
+		rel, _ := p.release.Load().(chan struct{})
+
+		p.held.Add(1)
+
+		select {
+		case <-r.Context().Done():
+		case <-rel:
+		}
+
+		p.held.Add(-1)
+		w.WriteHeader(http.StatusOK)
+		_, _ = w.Write([]byte(`{"status":200}`))
 	default:
 		w.WriteHeader(http.StatusOK)
 		_, _ = w.Write([]byte(`{"status":200}`))
@@ -170,6 +186,8 @@ type c29Row struct {
 	Peer    int    `json:"listener"` // index of the listener the row points at; -1 = closed port
 	Mode    string `json:"mode"`
 	Self    bool   `json:"self"`
+	Late    bool   `json:"late,omitempty"`   // not in the table at first: inserted by "another process" between two purges
+	Leaves  bool   `json:"leaves,omitempty"` // marked removed by "another process" between two purges
 }
 
 func (r c29Row) eligible() bool {
@@ -182,7 +200,7 @@ type c29Purge struct {
 }
 
 type c29Case struct {
-	Kind   string     `json:"kind"` // origin | purgeall | receiver
+	Kind   string     `json:"kind"` // origin | purgeall | receiver | overlap | join | leave
 	Rows   []c29Row   `json:"rows"`
 	Purges []c29Purge `json:"purges,omitempty"`
 	// receiver role
@@ -203,6 +221,8 @@ type c29Env struct {
 	hookEnd   atomic.Int64
 	hooked    bool
 	caseMark  int64
+	dbPath    string
+	otherDB   *sql.DB // a second connection to the system database: "another process"
 }
 
 var c29StackBuf = make([]byte, 2<<20)
@@ -269,6 +289,15 @@ func (e *c29Env) writeRows(rows []c29Row) {
 
 	for i, row := range rows {
 		port := e.closed
+		if row.Peer >= 0 {
+			e.peers[row.Peer].mode.Store(row.Mode)
+			e.peers[row.Peer].release.Store(rel)
+		}
+
+		if row.Late {
+			continue
+		}
+
 		if row.Peer >= 0 {
 			p := e.peers[row.Peer]
 			port = p.port
@@ -713,7 +742,9 @@ func (e *c29Env) runReceiver(c c29Case) {
 func TestVerifC29Node(t *testing.T) {
 	r := vh.New("C29", "node")
 	r.Rule = "case = membership table (this node + 0..4 active peers with scripts 200/500/slow/drop/hang/refuse + removed/inactive/other-cluster rows, random join order) x " +
-		"{1..3 concurrent caches.Purge of distinct cache ids | PurgeAll | one inbound flush with token in {valid,none,wrong,othercluster,truncated} and hops 0..6}; " +
+		"{1..3 concurrent caches.Purge of distinct cache ids | PurgeAll | one inbound flush with token in {valid,none,wrong,othercluster,truncated} and hops 0..6 | " +
+		"overlap: 2..4 purges (same and other cache class) issued while the first broadcast is parked at a held peer that is not first in the list | " +
+		"join/leave: a peer row inserted / marked removed through a second database connection between two back-to-back purges}; " +
 		"distinct = hash of the whole case; non-trivial = at least one active peer (origin) / every receiver case"
 
 	defer func() {
@@ -758,7 +789,7 @@ func TestVerifC29Node(t *testing.T) {
 
 	defer systemDB.Close()
 
-	e := &c29Env{t: t, r: r, log: &c29Log{}}
+	e := &c29Env{t: t, r: r, log: &c29Log{}, dbPath: filepath.Join(arena, "system.db")}
 	e.log.cond = sync.NewCond(&e.log.mu)
 
 	if caches.OnPurge != nil {
@@ -816,9 +847,14 @@ func TestVerifC29Node(t *testing.T) {
 			}
 		}
 
-		if c.Kind == "receiver" {
+		switch c.Kind {
+		case "receiver":
 			e.runReceiver(c)
-		} else {
+		case "overlap":
+			e.runOverlap(c)
+		case "join", "leave":
+			e.runMembership(c)
+		default:
 			e.runOrigin(c)
 		}
 
@@ -868,6 +904,8 @@ func TestVerifC29Node(t *testing.T) {
 
 		done += k
 	}
+
+	e.runHistories(rng, cacheIDs)
 
 	tokens := []string{"valid", "valid", "valid", "none", "wrong", "othercluster", "truncated"}
 	for i := 0; i < nRecv; i++ {
